@@ -502,6 +502,53 @@ def fam_geo_net(case):
     if norm <= 4 * n * G.COS_TOL:
         exc["total area below single-precision resolution"] = 1
         return {"viol": viol, "evals": ev, "excluded": exc, "sig": "polar"}
+    # area-weighted frequency distributions use the cosine of each node's own
+    # latitude WHATEVER the node weights of the network are: the same
+    # sequence gives the same distribution on the surface-, irrigation- and
+    # unit-weighted network, it sums to one, and one bin holds everything
+    try:
+        net3 = GeoNetwork(grid, adjacency=A, directed=bool(directed),
+                          node_weight_type=None, silence_level=3)
+        seqs = {"index": np.arange(n, dtype=float),
+                "alternating": np.array([float(i % 2) for i in range(n)])}
+        for sname, seq in seqs.items():
+            if seq.max() == seq.min():
+                exc["distribution of a constant sequence (zero bin width)"] \
+                    = exc.get("distribution of a constant sequence (zero "
+                              "bin width)", 0) + 1
+                continue
+            for nb in (1, 2, 3):
+                ref_d = None
+                for wname, gn in (("surface", net), ("irrigation", net2),
+                                  ("unit", net3)):
+                    for meth in ("geographical_distribution",
+                                 "geographical_cumulative_distribution"):
+                        ev += 1
+                        d = np.asarray(getattr(gn, meth)(
+                            sequence=seq.copy(), n_bins=nb)[0], dtype=float)
+                        key = (meth, )
+                        if wname == "surface":
+                            ref_d = ref_d or {}
+                            ref_d[meth] = d
+                            tot = d.sum() if "cumulative" not in meth \
+                                else d[0]
+                            if abs(tot - 1.0) > 1e-5:
+                                viol.append(V(
+                                    "GeoNetwork.%s:not-normalised" % meth,
+                                    "%s, sequence %s, %d bins" % (msg, sname,
+                                                                  nb),
+                                    d, "total 1"))
+                        elif d.shape != ref_d[meth].shape or not np.allclose(
+                                d, ref_d[meth], rtol=1e-6, atol=1e-7):
+                            viol.append(V(
+                                "GeoNetwork.%s:depends-on-node-weights:%s" % (
+                                    meth, wname),
+                                "%s, sequence %s, %d bins: differs from the "
+                                "same distribution on the surface-weighted "
+                                "network" % (msg, sname, nb), d, ref_d[meth]))
+    except Exception as ex:   # noqa
+        viol.append(V("GeoNetwork.geographical_distribution:raises",
+                      "%s %r" % (msg, ex), repr(ex), "a distribution"))
     Al = A.tolist()
     U = [[1 if (Al[i][j] or Al[j][i]) else 0 for j in range(n)]
          for i in range(n)]
